@@ -12,15 +12,34 @@ BITS = re.compile(r"^core::f(\d+)::<impl f(\d+)>::(from|to)_bits$")
 
 
 def family_bodies(facts, body):
-    """the method body plus all closures nested in it"""
+    """the method body, all closures nested in it, and the private non-trait helper functions it calls (with their
+    closures): `try_get_uint_be_impl(self, nbytes)` shared by get_uint and try_get_uint. Trait methods of Buf / BufMut are
+    never followed (they are recorded as delegations), nor is sign_extend (recorded as a transform)."""
     out = [body]
-    st = [body.did]
+    seen = {body.did}
+    st = [body]
     while st:
-        d = st.pop()
-        for c in facts.children.get(d, []):
-            if c.kind == "closure":
+        x = st.pop()
+        for c in facts.children.get(x.did, []):
+            if c.kind == "closure" and c.did not in seen:
+                seen.add(c.did)
                 out.append(c)
-                st.append(c.did)
+                st.append(c)
+        for _, t in x.calls():
+            fn = callee(t)
+            if fn is None or fn.get("trait"):
+                continue
+            r = fn.get("res") or {}
+            if not r.get("local") or r.get("did") is None or r["did"] in seen:
+                continue
+            cb = facts.by_did.get(r["did"])
+            if cb is None or cb.kind != "fn" or fn["name"] == "sign_extend" or fn["name"].startswith("panic_") or str(cb.vis).startswith("Public"):
+                continue
+            if len(seen) > 12:
+                continue
+            seen.add(cb.did)
+            out.append(cb)
+            st.append(cb)
     return out
 
 
@@ -184,8 +203,10 @@ def method_sig(facts, body, trait_path):
             if "RangeFrom<usize>" in full and fn["name"] in ("get", "get_mut", "index", "index_mut"):
                 loc = (bi, len(blk["stmts"]))
                 a = eb.operand(t["args"][1], loc)
-                if any(isinstance(x, tuple) and x[0] == "call" and x[1].endswith("checked_sub") for x in walk(a)):
-                    s.transforms.add("tail[size-n..]")
+                if any(isinstance(x, tuple) and ((x[0] == "call" and x[1].endswith("checked_sub") and contains(x[2][1], ("param",)))
+                                                 or (x[0] == "bin" and x[1] in ("Sub", "SubWithOverflow", "SubUnchecked") and contains(x[3], ("param",))
+                                                     and (x[2][0] == "const" or (x[2][0] == "call" and x[2][1].rsplit("::", 1)[-1] in ("size_of", "size_of_val", "len"))))) for x in walk(a)):
+                    s.transforms.add("tail[size-n..]")     # the start is `SIZE - nbytes`, however the subtraction is spelt
                 else:
                     s.transforms.add("from[?..]")
             if fn["name"] == "index" and "[u8]" in full and "usize" in fn.get("args", [""])[-1:] and False:
